@@ -599,6 +599,105 @@ func (g *G) Drop() X {
 	return X{T: t, Toks: toks}
 }
 
+// AlterTable: the ALTER TABLE forms of the documented surface (ADD COLUMN / CONSTRAINT, DROP COLUMN / CONSTRAINT,
+// RENAME TO, RENAME COLUMN).
+func (g *G) AlterTable(d int) X {
+	g.use("alter-table")
+	tn := g.tableName()
+	op := dump.N("AlterTableOperation", "TableName", dump.N("ObjectName"), "NewTableName", dump.N("ObjectName"))
+	toks := cat(kw("ALTER TABLE"), one(sym(tn)))
+	ident := func(n string) *dump.T { return dump.N("Ident", "Name", n) }
+	switch g.R.Intn(6) {
+	case 0: // ADD COLUMN
+		c := g.someCols(1)[0]
+		typ := g.pick([]string{"INT", "TEXT", "VARCHAR(10)", "NUMERIC(10,2)", "BIGINT", "DATE", "BOOLEAN"})
+		cd := dump.N("ColumnDef", "Name", c, "Type", typ)
+		toks = cat(toks, kw("ADD COLUMN"), one(sym(c)), one(sym(typ)))
+		var cons []*dump.T
+		switch g.R.Intn(5) {
+		case 0:
+			toks = cat(toks, kw("NOT NULL"))
+			cons = append(cons, dump.N("ColumnConstraint", "Type", "NOT NULL"))
+		case 1:
+			v := g.lit()
+			toks = cat(toks, kw("DEFAULT"), g.wrap(v, PrecOr))
+			cons = append(cons, dump.N("ColumnConstraint", "Type", "DEFAULT", "Default", v.T))
+		case 2:
+			c := g.Bool_(1)
+			toks = cat(toks, kw("CHECK"), paren(g.wrap(c, PrecOr)))
+			cons = append(cons, dump.N("ColumnConstraint", "Type", "CHECK", "Check", c.T))
+		case 3:
+			toks = cat(toks, kw("UNIQUE"))
+			cons = append(cons, dump.N("ColumnConstraint", "Type", "UNIQUE"))
+		}
+		if len(cons) > 0 {
+			cd.Set("Constraints", cons)
+		}
+		op.Set("Type", 1).Set("ColumnDef", cd)
+	case 1: // ADD CONSTRAINT
+		cn := g.pick([]string{"pk_1", "uq_x", "fk_t_u", "ck_pos"})
+		tc := dump.N("TableConstraint", "Name", cn)
+		toks = cat(toks, kw("ADD CONSTRAINT"), one(sym(cn)))
+		switch g.R.Intn(4) {
+		case 0:
+			cs, ctoks := g.strList(g.someCols(1 + g.R.Intn(2)))
+			toks = cat(toks, kw("PRIMARY KEY"), ctoks)
+			tc.Set("Type", "PRIMARY KEY").Set("Columns", cs)
+		case 1:
+			cs, ctoks := g.strList(g.someCols(1 + g.R.Intn(2)))
+			toks = cat(toks, kw("UNIQUE"), ctoks)
+			tc.Set("Type", "UNIQUE").Set("Columns", cs)
+		case 2:
+			c := g.Bool_(1)
+			toks = cat(toks, kw("CHECK"), paren(g.wrap(c, PrecOr)))
+			tc.Set("Type", "CHECK")
+			tc.F["Check"] = c.T
+		default:
+			cs, ctoks := g.strList(g.someCols(1))
+			rt := g.pick(tblNames)
+			rd := dump.N("ReferenceDefinition", "Table", rt)
+			toks = cat(toks, kw("FOREIGN KEY"), ctoks, kw("REFERENCES"), one(sym(rt)))
+			rts, rtoks := g.strList(g.someCols(1))
+			rd.Set("Columns", rts)
+			toks = cat(toks, rtoks)
+			if g.R.Intn(2) == 0 {
+				a := g.pick([]string{"CASCADE", "RESTRICT", "SET NULL"})
+				toks = cat(toks, kw("ON DELETE"), kw(a))
+				rd.Set("OnDelete", a)
+			}
+			tc.Set("Type", "FOREIGN KEY").Set("Columns", cs)
+			tc.F["References"] = rd
+		}
+		op.Set("Constraint", tc) // Type = AddConstraint = 0: dropped by the projection like every zero value
+	case 2: // DROP COLUMN
+		c := g.someCols(1)[0]
+		toks = cat(toks, kw("DROP COLUMN"), one(sym(c)))
+		op.Set("Type", 6).Set("ColumnName", ident(c))
+		if g.R.Intn(2) == 0 {
+			toks = cat(toks, kw("CASCADE"))
+			op.Set("CascadeDrops", true)
+		}
+	case 3: // DROP CONSTRAINT
+		cn := g.pick([]string{"pk_1", "uq_x", "fk_t_u"})
+		toks = cat(toks, kw("DROP CONSTRAINT"), one(sym(cn)))
+		op.Set("Type", 7).Set("ConstraintName", ident(cn))
+		if g.R.Intn(2) == 0 {
+			toks = cat(toks, kw("CASCADE"))
+			op.Set("CascadeDrops", true)
+		}
+	case 4: // RENAME TO
+		nn := g.pick([]string{"t_new", "archive_2024", "u2"})
+		toks = cat(toks, kw("RENAME TO"), one(sym(nn)))
+		op.Set("Type", 15).Set("NewTableName", dump.N("ObjectName", "Name", nn))
+	default: // RENAME COLUMN
+		cs := g.someCols(2)
+		toks = cat(toks, kw("RENAME COLUMN"), one(sym(cs[0])), kw("TO"), one(sym(cs[1])))
+		op.Set("Type", 12).Set("ColumnName", ident(cs[0])).Set("NewColumnName", ident(cs[1]))
+	}
+	t := dump.N("AlterStatement", "Name", tn, "Operation", op)
+	return X{T: t, Toks: toks}
+}
+
 func (g *G) Truncate() X {
 	g.use("truncate")
 	t := dump.N("TruncateStatement")
@@ -678,8 +777,10 @@ func (g *G) Statement(d int) X {
 		return g.CreateIndex(d)
 	case r < 95 && g.ok("create-view"):
 		return g.CreateView(d)
-	case r < 97 && g.ok("drop"):
+	case r < 96 && g.ok("drop"):
 		return g.Drop()
+	case r < 97 && g.ok("alter-table"):
+		return g.AlterTable(d)
 	case r < 99 && g.ok("truncate"):
 		return g.Truncate()
 	case g.ok("refresh"):
